@@ -57,6 +57,19 @@ class FS(FL):
 
 
 @dataclass(frozen=True)
+class FV(ASTNode):
+    """A model class that validates itself AFTER the base initialisation (late failure of replace / construction)."""
+
+    v: int = 0
+    nc: int = field(default=0, compare=False)
+
+    def __post_init__(self) -> None:
+        ASTNode.__post_init__(self)
+        if self.nc < 0 or self.v < 0:
+            raise ValueError("negative value")
+
+
+@dataclass(frozen=True)
 class FM(FL, Mix):  # non-slotted through multiple inheritance
     pass
 
@@ -76,7 +89,7 @@ def build_pool():
     t2 = FP(one=FL(1, origin=zoo.O_A01), items=(FS(2), FP(one=FM(3), items=(FL(4),), origin=zoo.O_MULTI)), origin=zoo.O_B01)  # twin of t0
     t3 = FP(items=(FL(7), FS(8, origin=zoo.O_GEN)), tag=3)
     t3.detach()
-    t4 = FL(9)
+    t4 = FP(one=FV(9), items=(FV(10, nc=1),))
     return [t0, t1, t2, t3, t4]
 
 
@@ -157,6 +170,11 @@ def unary_ops():
     ops["duplicate"] = lambda t: t.duplicate()
     ops["replace-ok"] = lambda t: t.replace(tag=9) if isinstance(t, FP) else t.replace(v=9)
     ops["replace-failing"] = lambda t: t.replace(nosuch=1)
+    # late failures: the new node is already built (and registered) when the subclass' own __post_init__ raises;
+    # nc does not enter the id (the half-built node takes the original's id), v does
+    ops["replace-failing-late-same-id"] = lambda t: _first(t, FV).replace(nc=-1)
+    ops["replace-failing-late-other-id"] = lambda t: _first(t, FV).replace(v=-1)
+    ops["dataclasses.replace-failing-late"] = lambda t: dataclasses.replace(_first(t, FV), nc=-1)
     ops["dataclasses.replace"] = lambda t: dataclasses.replace(t, origin=zoo.O_A23)
     ops["detach"] = lambda t: t.detach()
     ops["detach_self"] = lambda t: t.detach_self()
@@ -181,6 +199,13 @@ def unary_ops():
 
     ops["rich"] = rich_
     return ops
+
+
+def _first(t, cls):
+    for n in [t] + [i.node for i in t.dfs()]:
+        if isinstance(n, cls):
+            return n
+    raise KeyError("no such node in this tree")
 
 
 def binary_ops():
